@@ -27,7 +27,7 @@ type c18Prog struct {
 }
 
 var c18Progs = []c18Prog{
-	{"find", "find all 'Hello, ' (at least 1 letter) = name", false, false},
+	{"find", "find all 'Hello, ' (at least 1 not whitespace) = name", false, false},
 	{"replace", "replace all (at least 1 digit) = n with '<' n '>'", true, false},
 	{"failing", "find all 'unterminated", false, true},
 }
@@ -38,13 +38,14 @@ var c18FileSets = []struct {
 	files []string
 }{
 	{"one-file", "HelloLilith.txt", []string{"HelloLilith.txt"}},
-	{"several-by-glob", "*.txt", []string{"HelloLilith.txt", "numbers.txt", "other.txt"}},
+	{"several-by-glob", "*.txt", []string{"100%d.txt", "HelloLilith.txt", "numbers.txt", "other.txt"}},
 	{"none-matching", "*.nothing", nil},
 }
 
 var c18Contents = map[string]string{
-	"HelloLilith.txt": "Hello, Lilith\nHello, \"World\" 42\n",
-	"numbers.txt":     "7 and 1234 Hello, Ada\n",
+	"HelloLilith.txt": "Hello, Lilith\nHello, \"World\" 42\nHello, 50%off%d%s 100%\n",
+	"numbers.txt":     "7 and 1234 Hello, Ada\\n\tx 9%\n",
+	"100%d.txt":       "Hello, percent%name 3\n",
 	"other.txt":       "nothing to see <here>\n",
 	"keep.dat":        "bystander 99 Hello, Nobody",
 }
